@@ -789,7 +789,7 @@ func connCheck(c *core.Ctx) {
 			"the connection stress did not complete: "+err.Error()+" (a fatal runtime error or a deadlock in the connection code under concurrent callers)")
 	}
 	self, _ := os.Executable()
-	runs, stderr, err := runChild(self, c.Rng.U64(), c.N(36, 90), sz)
+	runs, stderr, err := runChild(self, c.Rng.U64(), c.N(60, 150), sz)
 	if err != nil {
 		crashed("plain build", stderr, err)
 	}
